@@ -321,7 +321,7 @@ def run(ctx, cases=None):
         res.exhaustive = True
     else:
         res.rule = "replay"
-    from multiprocessing import Pool
+    from ..common import Pool
     with Pool(16) as pool:
         events = [e for l in pool.map(make_events, cases, chunksize=10) for e in l]
     send = [{k: v for k, v in e.items() if k != "case"} for e in events]
